@@ -544,18 +544,22 @@ func (x *c05ctx) ruleMore() {
 		for _, fn := range x.readClosure(h) {
 			for _, ci := range core.Calls(fn) {
 				cc := ci.Common()
-				if !cc.IsInvoke() || !c05IsBoolErrSig(cc.Signature()) || cc.Signature().Params().Len() != 0 || seen[cc.Method] {
+				if !c05IsBoolErrSig(cc.Signature()) || cc.Signature().Params().Len() != 0 {
+					continue
+				}
+				m, recv := c05IfaceCall(cc)
+				if m == nil || seen[m] {
 					continue
 				}
 				if fn != h.Read {
 					// in a helper of Read the unit source must be the reader's own interface-typed field
-					fld, _ := c05FieldLoad(cc.Value)
+					fld, _ := c05FieldLoad(recv)
 					if fld == nil || !c05FieldOf(h.T, fld) {
 						continue
 					}
 				}
-				seen[cc.Method] = true
-				methods = append(methods, cc.Method)
+				seen[m] = true
+				methods = append(methods, m)
 			}
 		}
 	}
@@ -643,6 +647,43 @@ func (x *c05ctx) readClosure(h *c05H) []*ssa.Function {
 		level = next
 	}
 	return out
+}
+
+// c05IfaceCall: the interface method (keyed by the interface type the receiver value originally had) and the
+// receiver of a dynamic dispatch: a direct invoke, or a call of a bound-method value of an interface method
+// (`more := r.r.MoreUnprocessedData; more()`).
+func c05IfaceCall(cc *ssa.CallCommon) (*types.Func, ssa.Value) {
+	if cc.IsInvoke() {
+		return ecOriginMethod(cc), cc.Value
+	}
+	mc, ok := cc.Value.(*ssa.MakeClosure)
+	if !ok || len(mc.Bindings) != 1 {
+		return nil, nil
+	}
+	fn, ok := mc.Fn.(*ssa.Function)
+	if !ok || fn.Synthetic == "" {
+		return nil, nil
+	}
+	obj, ok := fn.Object().(*types.Func)
+	if !ok {
+		return nil, nil
+	}
+	sig := obj.Type().(*types.Signature)
+	if sig.Recv() == nil {
+		return nil, nil
+	}
+	if _, isI := sig.Recv().Type().Underlying().(*types.Interface); !isI {
+		return nil, nil
+	}
+	o := ecUnwrapIface(mc.Bindings[0])
+	if it, ok := o.Type().Underlying().(*types.Interface); ok {
+		for i := 0; i < it.NumMethods(); i++ {
+			if m := it.Method(i); m.Name() == obj.Name() && (m.Exported() || m.Pkg() == obj.Pkg()) {
+				return m, mc.Bindings[0]
+			}
+		}
+	}
+	return obj, mc.Bindings[0]
 }
 
 func c05FieldOf(n *types.Named, fld *types.Var) bool {
@@ -905,7 +946,7 @@ type c05Occ struct {
 }
 
 func c05FieldLoad(v ssa.Value) (*types.Var, ssa.Value) {
-	ld, ok := v.(*ssa.UnOp)
+	ld, ok := ecUnwrapIface(v).(*ssa.UnOp)
 	if !ok || ld.Op != token.MUL {
 		return nil, nil
 	}
@@ -1041,8 +1082,8 @@ func (x *c05ctx) ruleNext() {
 			continue
 		}
 		if p.min.Call.IsInvoke() {
-			in := core.NamedOf(p.min.Call.Value.Type())
-			in2 := core.NamedOf(p.max.Call.Value.Type())
+			in := core.NamedOf(ecUnwrapIface(p.min.Call.Value).Type())
+			in2 := core.NamedOf(ecUnwrapIface(p.max.Call.Value).Type())
 			if in == nil || in2 == nil || !types.Identical(in, in2) {
 				c.Unknown("R05b", core.FuncKey(p.fn)+" accessors", core.InstrPos(p.site), "accessors are invoked on different interfaces")
 				continue
